@@ -67,6 +67,13 @@ Theorem md004_consistent_quiet : forall lsts c,
 Proof. exact md004_consistent_quiet_l. Qed.
 Print Assumptions md004_consistent_quiet.
 
+(* MD032 says something only about the first line of a list that is not directly inside a list item (the documented
+   exemption) *)
+Theorem md032_only_at_lists : forall ls lvs lsts ln,
+  In ln (must (md032 ls lvs lsts)) \/ In ln (open_ (md032 ls lvs lsts)) -> exists l, In l lsts /\ in_item l = false /\ l_sl l = ln.
+Proof. exact md032_at_lists_l. Qed.
+Print Assumptions md032_only_at_lists.
+
 (* non-vacuity: the specification on a small document *)
 Example c06_example :
   let doc := [[35; 32; 97]; [35; 35; 35; 32; 98]; []; []; []]%N in   (* "# a" / "### b" / three blank pieces *)
